@@ -51,6 +51,7 @@ fn main() {
             }
         }
         "search" => {
+            watchdog::start(prop.clone());
             let bounds: Vec<(usize, usize)> = args
                 .str("bounds", "3:3")
                 .split(',')
@@ -73,6 +74,7 @@ fn main() {
             for_flavours!(sel, F, {
                 search::run_enumeration::<F>(&rc, &mut rep);
                 search::run_random::<F>(&rc, &mut rep, &mut rng);
+                search::run_large::<F>(&rc, &mut rep, &mut rng, args.num("large", 64) / nshards / nfl + 1);
                 if prop == "C06" && shard == 0 {
                     search::eval_cmp::<F>(&mut rep);
                 }
